@@ -432,7 +432,8 @@ def run(ctx):
     cases = []
     for n in range(0, 5 if quick else 6):
         combos = itertools.product(range(len(variants)), repeat=n)
-        if n >= 4: combos = rnd.sample(list(combos), 4000 if quick else 30000)
+        if n >= 4:
+            combos = list(combos); combos = rnd.sample(combos, min(len(combos), 4000 if quick else 30000))
         for combo in combos:
             lst = [mk(*variants[i]) for i in combo]
             sel = MultimapResolver.find_duplicates(lst, list(range(len(lst))))
